@@ -44,8 +44,9 @@ def runAdds (a : Nat) : List (List Nat × Bool) → Nat
   | [] => a
   | (idxs, r) :: rest => runAdds (add a idxs r) rest
 
-/-! ### `dual_bloom` (modelled for the correspondence only: its own docstring allows false
-negatives, the property does not speak about it) -/
+/-! ### `dual_bloom` (modelled mainly for the correspondence: its own docstring allows false
+negatives, the property does not speak about it; one theorem: an element recorded in the true
+filter is never answered False) -/
 
 /-- `not_set(values) = not all(values)` -/
 def notSet (a : Nat) (idxs : List Nat) : Bool := !allSet a idxs
@@ -68,5 +69,56 @@ def dualCall (s : Dual) (it if_ : List Nat) (noCollisions underlying : Bool) : D
   else if notSet s.t it && allSet s.f if_ then (s, false, false)
   else if notSet s.f if_ && allSet s.t it then (s, true, false)
   else (s, underlying, true)
+
+/-- the state after a sequence of `dual_bloom` calls, each given as (indexes in the true filter,
+indexes in the false filter, answer of the wrapped function) -/
+def dualRun (noCollisions : Bool) (s : Dual) : List (List Nat × List Nat × Bool) → Dual
+  | [] => s
+  | (it, if_, u) :: rest => dualRun noCollisions (dualCall s it if_ noCollisions u).1 rest
+
+/-! ### the filter's key has a lifetime
+
+The filter is an ordinary key of the backend: `expire(filter_key, t)` (the usual way to rotate a
+filter) gives it a deadline, `delete` drops it.  The decorator itself never passes a TTL. -/
+
+/-- what can happen to a filter: `func.set(…)` (index set of the element, result of the wrapped
+function), a call of the decorated predicate, commands on the filter's key, passage of time -/
+inductive FOp where
+  | add (idxs : List Nat) (result : Bool)
+  | query (idxs : List Nat)
+  | expire (ttl : Nat)
+  | delete
+  | touch
+  | adv (dt : Nat)
+  deriving Repr
+
+/-- the store after one step (`func.set` = `incr_bits(key, *indexes)` at width 1 by 1 when the
+wrapped function answered truthy; a query = `get_bits(key, *indexes)`, which purges a stale entry) -/
+def fstep (t : TState) : FOp → TState
+  | .add idxs r => if r then (tstep 1 t (.incrBits idxs 1)).1 else t
+  | .query idxs => (tstep 1 t (.getBits idxs)).1
+  | .expire ttl => (tstep 1 t (.expire ttl)).1
+  | .delete => (tstep 1 t .delete).1
+  | .touch => (tstep 1 t .touch).1
+  | .adv dt => (tstep 1 t (.adv dt)).1
+
+def frun (t : TState) : List FOp → TState
+  | [] => t
+  | op :: rest => frun (fstep t op) rest
+
+/-- `possible_set(await backend.get_bits(_cache_key, *hashes))` -/
+def tallSet (t : TState) (idxs : List Nat) : Bool := (tstep 1 t (.getBits idxs)).2.all (· != 0)
+
+/-- the decorated predicate on a filter with a lifetime -/
+def tquery (t : TState) (idxs : List Nat) (checkFp underlying : Bool) : Bool :=
+  if tallSet t idxs then (if checkFp then underlying else true) else false
+
+def tqueryCalls (t : TState) (idxs : List Nat) (checkFp : Bool) : Bool := tallSet t idxs && checkFp
+
+/-- the filter's key stays alive through the whole history: after every step it (logically) holds
+an array — it is never deleted and no deadline is reached -/
+def aliveThrough (t : TState) : List FOp → Bool
+  | [] => true
+  | op :: rest => (fstep t op).view.isSome && aliveThrough (fstep t op) rest
 
 end CashewsVerif.Bloom
